@@ -97,7 +97,7 @@ def correspond(ctx, scale):
     rng = ctx.rng
     failures, samples = [], []
     ev = nt = 0
-    dist = {'histories': 0, 'reload': 0, 'deepcopy': 0, 'double_reload': 0, 'post_steps': 0, 'with_outer_optimizer': 0}
+    dist = {'histories': 0, 'reload': 0, 'deepcopy': 0, 'double_reload': 0, 'reload_assign': 0, 'post_steps': 0, 'with_outer_optimizer': 0}
     reps = (2 if not ctx.thorough else 10) * scale
     for f in factories():
         for rep in range(reps):
@@ -139,6 +139,9 @@ def correspond(ctx, scale):
                 d2 = f['mk']()
                 d2.load_state_dict(copy.deepcopy(b.state_dict()))
                 variants.append(('double_reload', d2))
+                e2 = f['mk']()
+                e2.load_state_dict(copy.deepcopy(sd), assign=True)       # replaces the tensor objects instead of copying into them
+                variants.append(('reload_assign', e2))
             except Exception as ex:
                 failures.append({'key': f'{f["name"]}:reload-exception:{type(ex).__name__}', 'what': f'{f["name"]}: load_state_dict / deepcopy raised {ex!r}', 'case': dict(name=f['name'])})
                 continue
